@@ -54,11 +54,13 @@ Proof.
   - intros a a' Ha Ha'. unfold negacyclic_explicit, vadd at 2. rewrite map2_same_map. apply map_ext. intros k.
     rewrite !negacyclic_coeff_cterm. unfold fp_add.
     pose proof (fold_cterm_add_l a a' b k (seq 0 64) 0 0 0 ltac:(congruence) (eqp_refl _)) as E.
-    unfold eqp in E. rewrite E. eqp_ring.
+    unfold eqp in E. rewrite E.
+    generalize (fold_left (cterm a b k) (seq 0 64) 0) (fold_left (cterm a' b k) (seq 0 64) 0). intros x x'. eqp_ring.
   - intros c a Ha. unfold negacyclic_explicit, vscale at 2. rewrite map_map. apply map_ext. intros k.
     rewrite !negacyclic_coeff_cterm. unfold fp_mul.
     pose proof (fold_cterm_scale_l c a b k (seq 0 64) 0 0 ltac:(apply eqp_of_eq; ring)) as E.
-    unfold eqp in E. rewrite E. eqp_ring.
+    unfold eqp in E. rewrite E.
+    generalize (fold_left (cterm a b k) (seq 0 64) 0). intros x. eqp_ring.
   - intros a _. apply length_negacyclic_explicit.
 Qed.
 Lemma explicit_linear_r a : linear64 (fun b => negacyclic_explicit a b).
@@ -67,11 +69,13 @@ Proof.
   - intros b b' Hb Hb'. unfold negacyclic_explicit, vadd at 2. rewrite map2_same_map. apply map_ext. intros k.
     rewrite !negacyclic_coeff_cterm. unfold fp_add.
     pose proof (fold_cterm_add_r a b b' k (seq 0 64) 0 0 0 ltac:(congruence) (eqp_refl _)) as E.
-    unfold eqp in E. rewrite E. eqp_ring.
+    unfold eqp in E. rewrite E.
+    generalize (fold_left (cterm a b k) (seq 0 64) 0) (fold_left (cterm a b' k) (seq 0 64) 0). intros x x'. eqp_ring.
   - intros c b Hb. unfold negacyclic_explicit, vscale at 2. rewrite map_map. apply map_ext. intros k.
     rewrite !negacyclic_coeff_cterm. unfold fp_mul.
     pose proof (fold_cterm_scale_r c a b k (seq 0 64) 0 0 ltac:(apply eqp_of_eq; ring)) as E.
-    unfold eqp in E. rewrite E. eqp_ring.
+    unfold eqp in E. rewrite E.
+    generalize (fold_left (cterm a b k) (seq 0 64) 0). intros x. eqp_ring.
   - intros b _. apply length_negacyclic_explicit.
 Qed.
 
@@ -125,7 +129,10 @@ Lemma unit_pairs_computed :
   forallb (fun k => forallb (fun j =>
     list_eqb Z.eqb (negacyclic (unit_vec 64 k) (unit_vec 64 j)) (negacyclic_explicit (unit_vec 64 k) (unit_vec 64 j)))
     (seq 0 64)) (seq 0 64) = true.
-Proof. vm_compute. reflexivity. Qed.
+Proof.
+  (* evaluated once, by the kernel's VM at Qed (vm_compute + reflexivity would evaluate the 4096 pairs twice) *)
+  vm_cast_no_check (eq_refl true).
+Qed.
 Lemma unit_pairs k j :
   (k < 64)%nat -> (j < 64)%nat ->
   negacyclic (unit_vec 64 k) (unit_vec 64 j) = negacyclic_explicit (unit_vec 64 k) (unit_vec 64 j).
